@@ -1037,7 +1037,8 @@ func (f *FuncCtx) loopCalls(nodes []ast.Node, name string, env *Env) bool {
 		ast.Inspect(nd, func(n ast.Node) bool {
 			switch c := n.(type) {
 			case *ast.CallExpr:
-				if exprStr(ast.Unparen(c.Fun)) == name {
+				ct := exprStr(ast.Unparen(c.Fun))
+				if ct == name || (strings.HasPrefix(name, "*.") && strings.HasSuffix(ct, name[1:])) {
 					found = true
 				}
 				// calls through local closures may reach the tracked callee
